@@ -123,6 +123,8 @@ class SimFS:
         self.seq = 0
         self.open_handles = []
         self.fds = {}            # fake file descriptor -> handle (fileno() of simulated handles)
+        self.wfault = None       # write-fault plan: {'k': index of the OS-level write, 'kind': 'enospc' | 'eio_once',
+        #                           'n': writes attempted so far, 'fired': count}
         self.meta = {}           # path -> [inode, sequence number of the last modification] (what stat() shows)
         self.ninodes = 0
 
@@ -356,6 +358,15 @@ class SimRaw(io.RawIOBase):
     def write(self, b):
         data = bytes(b)
         f = self.fs.files[self.path]
+        wf = self.fs.wfault
+        if wf is not None:
+            i = wf['n']
+            wf['n'] = i + 1
+            if i == wf['k'] or (i > wf['k'] and wf['kind'] == 'enospc'):
+                wf['fired'] += 1
+                if wf['kind'] == 'enospc':
+                    raise OSError(errno.ENOSPC, 'No space left on device (injected)')
+                raise OSError(errno.EIO, 'Input/output error (injected)')
         if self._append:
             self._pos = len(f)
         entry = (self.fs._next_seq(), self.path, self.hid, 'write', self._pos, data, _thread_name())
